@@ -3,7 +3,7 @@ from __future__ import annotations
 
 from hypothesis import strategies as st
 
-from harness import scenario, vclock
+from harness import gen, scenario, vclock
 from harness.core import Check, Outcome, SubCheck
 
 GRID = st.integers(0, 16).map(lambda k: k * 0.25)
@@ -31,8 +31,10 @@ def conc_case(draw, brokers):
         # an actor that ends cancelled leaves its message without a disposition; on RabbitMQ that unacked message keeps
         # occupying the server-side prefetch window, which is not the slot accounting this property is about
         kind = "raise" if r < 2 else ("cancel" if r == 2 and broker != "amqp" else ("timeout" if r == 3 else "ret"))
-        j = {"id": f"j{i}", "actor": a["name"], "queue": a["queue"], "retries": 0, "store_result": False,
+        j = {"id": f"j{i}", "actor": a["name"], "queue": a["queue"], "retries": 0, "store_result": draw(st.integers(0, 2)) == 0,
              "attempts": [{"k": kind, "exc": "ValueError", "text": "f", "v": i, "sleep": dur}]}
+        if draw(st.integers(0, 3)) == 0:
+            j["priority"] = draw(st.sampled_from([0, 9]))
         if kind == "timeout":
             # the execution timeout expires; the actor may take a while to unwind (cleanup after the cancellation) and
             # occupies its slot until it has
@@ -53,6 +55,7 @@ def conc_case(draw, brokers):
             "policy": None, "worker": {"tasks_limit": tl}, "jobs": jobs}
     if broker != "mem":
         case["lat"] = draw(st.lists(st.sampled_from([0.0, 0.001, 0.003]), max_size=20))
+    gen.host_dims(draw, case, prio=False)
     total = sum(_dur(j) for j in jobs)
     latest = max([j.get("enqueue_at", 0.0) for j in jobs] + [0.0])
     case["horizon"] = round(latest + total + len(jobs) * (L_PICKUP[broker] + 0.2) + 6.0, 3)
